@@ -771,10 +771,17 @@ func (n *MapLiteralNode) String() string {
 	return expr + "]"
 }
 
+// Children returns the values in the order of their keys: passes that walk the
+// tree (and the first error they report) must not depend on map iteration order.
 func (n *MapLiteralNode) Children() []Node {
+	var keys = make([]string, 0, len(n.Items))
+	for k := range n.Items {
+		keys = append(keys, k)
+	}
+	sort.Strings(keys)
 	var nodes []Node
-	for _, v := range n.Items {
-		nodes = append(nodes, v)
+	for _, k := range keys {
+		nodes = append(nodes, n.Items[k])
 	}
 	return nodes
 }
